@@ -1,8 +1,8 @@
 CONSTANTS
-  MaxSize = 10
-  Prof <- ProfArith
+  MaxSize = 9
+  Prof <- ProfCollZ
   MathTable <- NoTable
-  GenBackend = "any"
+  GenBackend = "cms_aod"
 INIT GInit
 NEXT GNext
 INVARIANT Export
